@@ -174,8 +174,11 @@ def affectees (s : Spec) : List Item :=
 
 /-- Reverse dependencies of node `(y, b)` as `_revise_regular_attr_dependents` enumerates them:
 (1) attributes of `y` capped by `b`; (2) targets of local specs of `y` sourced from `b`; (3) targets of
-projected specs of `y` sourced from `b`; (4) if `y` is a recorded target of projector `(a, e)` whose effect
-is resisted by `b`: everything the projected specs of `(a, e)` select. -/
+projected specs of `y` sourced from `b`; (4) for every projector `(a, e)` whose effect is resisted by `b` and
+which has `y` among its recorded targets — or, when `y` is owner-modifiable (drone, fighter, charge), the
+ship of `y`'s fit: such an item is selected by effects projected onto its ship but resists them with its own
+attribute — everything the projected specs of `(a, e)` select, over *all* recorded targets of the projector
+(as the code does, not only the specs aimed at `y`). -/
 def rdeps (n : Node) : List Node :=
   match item? cfg n.1 with
   | none => []
@@ -185,7 +188,9 @@ def rdeps (n : Node) : List Node :=
       (affectees u cfg d s).map fun x => (x.id, s.m.tgtAttr)) ++
     (cfg.items.flatMap fun a =>
       ((projSpecs u cfg d a).filter fun s =>
-          s.e.resistAttr == some n.2 && n.2 != 0 && (match s.tg with | some t => t.id == y.id | none => false)).flatMap
+          s.e.resistAttr == some n.2 && n.2 != 0 &&
+          (targetsOf cfg d a s.e).any fun t =>
+            t.id == y.id || (y.kind.ownerModifiable && shipOf cfg y.fit == some t.id)).flatMap
         fun s => (affectees u cfg d s).map fun x => (x.id, s.m.tgtAttr))
 
 /-- Attribute cache: `(item, attribute) ↦ cached value`. -/
